@@ -17,7 +17,7 @@ REL = {  # file -> checks whose contracts cover functions of that file
     'group.py': ['C08', 'C02'], 'decision_gate.py': ['C08', 'C02'],
     'source.py': ['C02', 'C16', 'C03', 'C06'], 'sink.py': ['C17', 'C16', 'C02', 'C15'],
     'part_batcher.py': ['C17', 'C02'], 'batch.py': ['C17', 'C16'], 'part.py': ['C08', 'C16', 'C17'],
-    'sensors.py': ['C19'], 'system.py': ['C20', 'C14', 'C16'], 'asset.py': ['C16', 'C20'],
+    'sensors.py': ['C19'], 'sensor.py': ['C19', 'C20'], 'part_sensor.py': ['C19', 'C20'], 'cms.py': ['C19'], 'system.py': ['C20', 'C14', 'C16'], 'asset.py': ['C16', 'C20'],
     'probes.py': ['C19'], 'utils.py': ['C14'],
 }
 manifest = json.load(open('/verif/MANIFEST.json'))
